@@ -55,10 +55,18 @@ ResetStep == /\ IsEv("reset")
 
 Finished == l = Len(Rec) + 1
 
-\* Invariant (always TRUE): writes the verdict when the file has been consumed.
+\* Invariant (always TRUE): writes the verdict when the file has been consumed.  A trace spec may
+\* branch where the trace leaves something undetermined (TLC then explores every branch); the
+\* verdict is that of the BEST complete branch - the execution is accepted if some resolution of
+\* what was not logged explains it.  (TLC register 1 holds the fewest failed checks so far; needs
+\* -workers 1.)
+ASSUME TLCSet(1, 1000000)
+
 Report ==
     Finished =>
-        JsonSerialize(IOEnv.OUT,
-            [consumed |-> Len(Rec), bad |-> bad, nbad |-> Cardinality(bad)])
-
+        IF Cardinality(bad) < TLCGet(1)
+        THEN /\ TLCSet(1, Cardinality(bad))
+             /\ JsonSerialize(IOEnv.OUT,
+                    [consumed |-> Len(Rec), bad |-> bad, nbad |-> Cardinality(bad)])
+        ELSE TRUE
 =============================================================================
